@@ -28,6 +28,20 @@ def run(ctx, R, tier):
     R.rule("C11-R6", "for every serializer: the batch envelope (kwargs=None) is accepted by dumpsCall/loadsCall, and marshal converts the members of the batch containers (shared with C01-R9/R10)", floor=10)
     R.rule("C11-R4", "flags: batched replies carry FLAGS_BATCH; the client sets FLAGS_BATCH (+ONEWAY); BatchProxy clears its calls after every submit; oneway returns nothing", floor=5)
 
+    # decided first (it does not depend on the shape of the batch loop): a batched call takes exactly the keyword arguments the same call takes on its own - no function
+    # on the way to the user's method receives the user's **kwargs next to named parameters of its own (shared with C01-R7): `batch.request(url, method="POST")` must
+    # not fail where `proxy.request(url, method="POST")` works
+    from ..report import Rules as _RulesK
+    from ..report import run_shared as _run_sharedK
+    from . import c01 as _c01K
+    R1K = _RulesK("C01")
+    try:
+        _run_sharedK(ctx, _c01K, R1K, tier)
+    except AnalysisError as _shared_x:
+        R.note("obligations shared from C01 are incomplete on this tree: %s" % _shared_x)
+    for o in R1K.obs:
+        if o.rule == "C01-R7" and o.key.endswith("|user-keywords-cannot-collide"):
+            R.add("C11-R5", "%s|user-keywords-cannot-collide" % o.key.split("|")[1], o.desc + " (a batched call accepts the same keywords as the call made directly)", o.ok, o.loc, o.detail)
     hr = ctx.fn("Pyro5.server.Daemon.handleRequest")
     cfg = ctx.cfg(hr)
     rd = ctx.rd(hr)
